@@ -502,6 +502,10 @@ func c04(c *Ctx) (*report.Result, error) {
 	}
 	res.RuleDoc["O4.8"] = "tasks lost with a target stream are not forgotten: when a sender incarnation ends, Run (after its shutdown wait, or in a deferred call) examines the id ring's outstanding entries - the only record of which source shards have tasks that were handed to the broken stream and not confirmed - so that something (re-send, or holding the acknowledgement back) can happen for them"
 	checkOutstandingOnExit(c, res, "O4.8")
+	res.RuleDoc["O4.9"] = "a target whose stream is down while its tasks wait holds the acknowledgement back: the ackByTarget entry for a target is ensured before the hand-over is attempted, not after it succeeded (same analysis as O1.8) - otherwise, while the receiver retries a broken or backlogged target, another target's confirmation acknowledges the waiting tasks"
+	if g := resolve(c, res, "O4.9", anchor{"proxy", "*proxyStreamReceiver", "recvReplicationMessages"}); g != nil {
+		checkSilentTargets(c, res, g, "O4.9")
+	}
 	res.RuleDoc["O4.5"] = "a target stream that (re)connects is not told a watermark above tasks still waiting for it: lastWatermark is written only from watermark-only batches (same rule as O1.6)"
 	checkReplayedWatermark(c, res, "O4.5")
 
